@@ -73,6 +73,8 @@ def evaluate(case):
                 return eval_count(case)
             if mode == "size":
                 return eval_size(case)
+            if mode == "two":
+                return eval_two(case)
             if mode == "freq":
                 return eval_freq(case)
             if mode == "align":
@@ -209,6 +211,37 @@ def eval_size(case):
     return {"status": "viol" if viols else "ok", "viols": viols, "info": info}
 
 
+def eval_two(case):
+    """Two different repartition requests on ONE frame evaluated in one graph: each must still return the frame."""
+    import dask_expr as dx
+
+    viols, info = [], {}
+    pdf = tables.T[["a", "u", "b", "d"]]
+    cuts = _cut_even(len(pdf), case["n_in"])
+    divs = None
+    if case.get("known"):
+        edges = [0] + cuts + [len(pdf)]
+        divs = [pdf.index[e] for e in edges[:-1]] + [pdf.index[-1]]
+    df = tables.from_parts(tables.cut(pdf, cuts), divs)
+    try:
+        qs = [df.repartition(**{case["by"]: v}) for v in case["values"]]
+        plan = dx.concat(qs).optimize(fuse=case.get("fuse", False))
+        nparts = [q.optimize(fuse=False).npartitions for q in qs]
+        parts = run_parts(plan.expr)
+    except CaseTimeout:
+        raise
+    except Exception as e:  # noqa: BLE001
+        viols.append({"kind": "raises:" + exc_kind(e), "detail": short(e)})
+        return {"status": "viol", "viols": viols, "info": info}
+    if len(parts) != sum(nparts):
+        viols.append({"kind": "two_npartitions", "detail": f"{len(parts)} partitions for {nparts}"})
+    else:
+        _rows_equal(pdf, parts[: nparts[0]], viols, f"first of {case['values']}")
+        _rows_equal(pdf, parts[nparts[0]:], viols, f"second of {case['values']}")
+    info["nontrivial"] = True
+    return {"status": "viol" if viols else "ok", "viols": viols, "info": info}
+
+
 def eval_freq(case):
     viols, info = [], {}
     idx = pd.date_range("2021-01-01", periods=10, freq="D", name="ti")
@@ -312,6 +345,21 @@ def run(ctx):
     for n_in in (1, 2, 3, 6):
         for size in ("50B", "100B", "200B", "300B", "500B", "1kB", "10kB"):
             cases.append({"mode": "size", "n_in": n_in, "size": size})
+    sizes = ("50B", "100B", "200B", "300B", "1kB")
+    for n_in in (1, 2, 3, 6):
+        for known in (False, True):
+            for a in sizes:
+                for b in sizes:
+                    if a != b:
+                        cases.append({"mode": "two", "n_in": n_in, "by": "partition_size", "values": [a, b], "known": known})
+            for a in range(1, 7):
+                for b in range(1, 7):
+                    if a != b:
+                        cases.append({"mode": "two", "n_in": n_in, "by": "npartitions", "values": [a, b], "known": known})
+        for d1 in ([0, 11], [0, 4, 11], [0, 6, 11], [0, 2, 9, 11]):
+            for d2 in ([0, 11], [0, 4, 11], [0, 6, 11], [0, 2, 9, 11]):
+                if d1 != d2:
+                    cases.append({"mode": "two", "n_in": n_in, "by": "divisions", "values": [d1, d2], "known": True})
     for n_in in (1, 2, 3, 5):
         for freq in ("1D", "2D", "3D", "7D"):
             cases.append({"mode": "freq", "n_in": n_in, "freq": freq})
@@ -323,7 +371,7 @@ def run(ctx):
                 cases.append({"mode": "align", "d1": list(d1), "d2": list(d2), "op": op})
     ctx.rule = (f"all (old divisions, new divisions, force) triples over the ordered domain {list(dom)} ({len(adm)} admissible tuples incl. repeated last value "
                 "and single-value ranges) x index dtypes int/float/str/datetime with every label duplicated, plus tuples check_divisions rejects; all (n_in, n_out) "
-                f"up to {nmax} x known/unknown divisions x empty partitions; partition_size thresholds; freq grid; alignment binops over all pairs of division vectors; "
+                f"up to {nmax} x known/unknown divisions x empty partitions; partition_size thresholds; freq grid; all ordered pairs of different requests (sizes, counts, divisions) on one frame in ONE graph; alignment binops over all pairs of division vectors; "
                 "non-trivial = the request changes the layout")
     res = ctx.map(evaluate, cases, chunk=200)
     ctx.states = len(cases)
